@@ -19,7 +19,7 @@ if ! git -C "$WT" apply "$SD/patch.diff" 2>>"$LOG"; then echo "$NAME: PATCH-NOAP
 if ! (cd "$WT" && go build ./... >>"$LOG" 2>&1); then echo "$NAME: NOBUILD"; exit 4; fi
 base=$(timeout 600 "$V/scripts/baseline_off.sh" "$WT" | head -1)
 timeout 600 bash "$SD/demo/run.sh" "$WT" >>"$LOG" 2>&1; rc_patched=$?
-(cd "$WT" && git clean -fdq -e '!*' >/dev/null 2>&1; true)
+(cd "$WT" && git clean -fdq -- '*_test.go' '*zz_*' >/dev/null 2>&1; true)
 fired=""; silent=""
 for id in $IDS; do
   out=$("${DVERIF:-$V/bin/dverif}" check "$id" --repo "$WT" --out "$WT.ev" -q 2>&1)
